@@ -1,7 +1,7 @@
 #!/bin/bash
 # run every registered quick (or $1=thorough) check sequentially; print one line per check
 tier=${1:-quick}
-cd /verif
+cd "$(dirname "$0")/.."
 for i in $(seq -w 1 20); do
   s=$(date +%s)
   out=$(PYTHONHASHSEED=0 /venv/bin/python check.py C$i --tier $tier 2>&1); rc=$?
